@@ -10,7 +10,7 @@ Expression AST (lists, first element is the operator):
              ["res_eq", key, lit]  ["res_ne", key, lit]          result().key = / != lit
              ["ctx_lt", var, n] ["ctx_ge", var, n] ["ctx_eq", var, lit]
              ["and", a, b] ["or", a, b] ["not", a]
- values      ["lit", v]  ["ctx", var]  ["ctx_plus", var, n]  ["res"]  ["res_key", key]
+ values      ["lit", v]  ["ctx", var]  ["ctx_plus", var, n]  ["ctx_rsub", var, k]  ["res"]  ["res_key", key]
              ["item"] ["item_key", k]
 
 Each expression carries its own rendering style: a dict {"e": ast, "lang": "yaql"|"jinja",
@@ -83,6 +83,8 @@ def _r(e, lang, form):
         return _ctxref(e[1], lang, form)
     if op == "ctx_plus":
         return "%s + %s" % (_ctxref(e[1], lang, form), _lit(e[2], lang))
+    if op == "ctx_rsub":  # k - ctx(var)
+        return "%s - %s" % (_lit(e[2], lang), _ctxref(e[1], lang, form))
     if op == "res":
         return "result()"
     if op == "res_key":
@@ -164,6 +166,8 @@ def _ev(e, status, result, ctx, item):
         return copy.deepcopy(_var(ctx, e[1]))
     if op == "ctx_plus":
         return _var(ctx, e[1]) + e[2]
+    if op == "ctx_rsub":
+        return e[2] - _var(ctx, e[1])
     if op == "res":
         return copy.deepcopy(result)
     if op == "res_key":
@@ -182,7 +186,7 @@ def ctx_vars(x):
         return out
 
     def walk(e):
-        if e[0] in ("ctx_lt", "ctx_ge", "ctx_eq", "ctx", "ctx_plus"):
+        if e[0] in ("ctx_lt", "ctx_ge", "ctx_eq", "ctx", "ctx_plus", "ctx_rsub"):
             out.add(e[1])
         for s in e[1:]:
             if isinstance(s, list) and s and isinstance(s[0], str):
